@@ -24,9 +24,12 @@ import (
 
 var errPeer = errors.New("peer error")
 
+// resp is one downstream response: mode 0 returns an error iff the write is
+// short (the io.Writer contract), 1 always returns an error, 2 never does
+// (a contract-violating writer when the write is short).
 type resp struct {
 	accept int
-	fail   bool
+	mode   int
 }
 
 // down is the scripted downstream writer. An exhausted script accepts
@@ -51,7 +54,7 @@ func (d *down) Write(p []byte) (int, error) {
 		if r.accept < n {
 			n = r.accept
 		}
-		fail = r.fail
+		fail = r.mode == 1 || (r.mode == 0 && n < len(p))
 	}
 	d.got = append(d.got, p[:n]...)
 	if n < len(p) && !fail {
@@ -110,7 +113,8 @@ func parseScript(s string) []resp {
 	for _, r := range strings.Split(s, ";") {
 		p := strings.Split(r, "/")
 		a, _ := strconv.Atoi(p[0])
-		out = append(out, resp{a, p[1] == "1"})
+		m, _ := strconv.Atoi(p[1])
+		out = append(out, resp{a, m})
 	}
 	return out
 }
@@ -459,17 +463,19 @@ func genScript(r *hx.Rand, n int, allowNonconforming bool) string {
 	rs := make([]string, k)
 	for i := range rs {
 		switch x := r.Intn(100); {
-		case x < 60:
+		case x < 50:
 			rs[i] = "99999/0"
-		case x < 80:
+		case x < 75:
+			rs[i] = fmt.Sprintf("%d/0", r.Intn(8))
+		case x < 83:
 			rs[i] = fmt.Sprintf("%d/1", r.Intn(6))
 		case x < 90:
 			rs[i] = "99999/1"
 		default:
 			if allowNonconforming && r.Chance(1, 3) {
-				rs[i] = fmt.Sprintf("%d/0", r.Intn(6))
+				rs[i] = fmt.Sprintf("%d/2", r.Intn(6))
 			} else {
-				rs[i] = fmt.Sprintf("%d/1", r.Intn(3))
+				rs[i] = fmt.Sprintf("%d/0", r.Intn(3))
 			}
 		}
 	}
@@ -519,7 +525,7 @@ func main() {
 		}
 
 		// ---- exhaustive small spaces
-		responses := []string{"99/0", "0/1", "1/1", "99/1", "1/0"}
+		responses := []string{"99/0", "0/0", "1/0", "99/1", "1/1", "1/2"}
 		datas := []string{"w:-", "w:a1", "w:b1b2", "w:c1c2c3"}
 		// cutoff: N 0..4, two or three writes, every pair of first responses.
 		for N := 0; N <= 4; N++ {
@@ -585,7 +591,7 @@ func main() {
 		}
 		for open := 0; open <= 1; open++ {
 			seqs(nil, c.Size(6, 9), "s", func(ops []string) {
-				emit(fmt.Sprintf("valve %d 1/1 %s", open, strings.Join(ops, " ")))
+				emit(fmt.Sprintf("valve %d 1/0 %s", open, strings.Join(ops, " ")))
 				c.Count("exhaustive")
 			})
 		}
